@@ -466,6 +466,89 @@ def hash_compare_shape(chk, src, fn, rule='signature-hash-compare'):
         chk.violation(rule, inst, F.where(cm[0]), '; '.join(det), key='%s %s' % (rule, fn))
 
 
+def fallback_scsv(chk):
+    """RFC 7507 section 3: if the ClientHello lists TLS_FALLBACK_SCSV (0x5600) and the highest version the server supports is higher
+    than ClientHello.client_version, the server MUST answer with a fatal inappropriate_fallback alert (86) - unless the client
+    version is below the server's minimum, where protocol_version applies.  The bytecode that handles suite 0x5600 is cut out of the
+    ClientHello word and evaluated by constant propagation for every (client max V, server min m, server max M) over
+    TLS 1.0 .. 1.2: the client-version local must be turned into the marker (a negative value) exactly when m <= V < M, and the
+    marker is later consumed by a `0<` test that leads to fail-alert 86."""
+    import collections
+    R = 'fallback-scsv-refused'
+    P = t0.Program('hs_server')
+    o_min = P.layouts.field(P.ctxname, 'eng.version_min')[0]
+    o_max = P.layouts.field(P.ctxname, 'eng.version_max')[0]
+    site = None
+    for w, W in P.words.items():
+        l = list(W.ins.values())
+        for k, i in enumerate(l):
+            if i.kind == 'const' and i.arg == 0x5600 and k + 2 < len(l) and l[k + 1].kind == 'native' and l[k + 1].name == '=' and l[k + 2].kind == 'jumpifnot':
+                site = (W, l[k + 2].next, l[k + 2].arg)
+    if site is None:
+        chk.violation(R, 'hs_server: TLS_FALLBACK_SCSV is recognised in the ClientHello suite list', P.src, 'no comparison of a suite with 0x5600 is left', key='%s none' % R)
+        return
+    W, a, b = site
+    body = [i for pc, i in W.ins.items() if a <= pc < b]
+    loc = [i.arg for i in body if i.kind in ('getlocal', 'putlocal')]
+    if not body or not loc or len(set(loc)) != 1:
+        raise AnalysisBroken('hs_server: the 0x5600 branch does not work on one local (%s)' % sorted(set(loc)))
+    k = loc[0]
+    # consumer of the marker
+    def is_neg_test(x):
+        if x.kind == 'native':
+            return x.name == '0<'
+        if x.kind == 'call':
+            b_ = [(q.kind, q.name if q.kind == 'native' else q.arg) for q in P.words[x.arg].ins.values()]
+            return b_ == [('const', 0), ('native', '<'), ('ret', None)]
+        return False
+    l = list(W.ins.values())
+    cons = False
+    for j, i in enumerate(l):
+        if i.kind == 'getlocal' and i.arg == k and j + 2 < len(l) and is_neg_test(l[j + 1]) and l[j + 2].kind == 'jumpifnot':
+            seg = [x for x in l if l[j + 2].next <= x.pc < l[j + 2].arg]
+            if any(x.kind == 'const' and x.arg == 86 for x in seg):
+                cons = True
+    inst = 'hs_server W%d: a negative client-version marker leads to alert 86 (inappropriate_fallback)' % W.id
+    if cons:
+        chk.ok(R, inst, P.src)
+    else:
+        chk.violation(R, inst, P.src, 'no `0<` test of local %d guarding a fail-alert 86' % k, key='%s consumer' % R)
+    # the branch itself, evaluated on the version grid
+    BIG = 1 << 20
+    for V in (0x0301, 0x0302, 0x0303):
+        for m in (0x0301, 0x0302, 0x0303):
+            for M in (0x0301, 0x0302, 0x0303):
+                if m > M or V < m:
+                    continue
+                ins = collections.OrderedDict()
+                ins[BIG] = t0.Ins(BIG, 'const', V, BIG + 1)
+                ins[BIG + 1] = t0.Ins(BIG + 1, 'putlocal', k, a)
+                for i in body:
+                    ins[i.pc] = i
+                ins[b] = t0.Ins(b, 'getlocal', k, BIG + 2)
+                ins[BIG + 2] = t0.Ins(BIG + 2, 'ret', None, BIG + 3)
+                wid = max(P.words) + 1
+                P.words[wid] = t0.Word(wid, W.nloc, ins)
+                try:
+                    I = t0ai.Interp(P, field_ranges={o_min: (m, m), o_max: (M, M)})
+                    st = t0ai.St()
+                    outs = I.run_word(wid, st, ())
+                finally:
+                    del P.words[wid]
+                vals = set()
+                for o in outs or []:
+                    vals.add(o.rng(o.stack[-1]))
+                want_mark = V < M
+                inst = 'hs_server: FALLBACK_SCSV with client max %#06x, server range %#06x..%#06x => %s' % (V, m, M, 'refused' if want_mark else 'accepted')
+                okk = bool(vals) and all((hi < 0) if want_mark else (lo == hi == V) for lo, hi in vals)
+                if okk:
+                    chk.ok(R, inst, P.src)
+                else:
+                    chk.violation(R, inst, P.src, 'the client-version local is %s after the 0x5600 branch: %s' % (
+                        sorted(vals), 'the downgrade is not marked, the handshake continues at the lower version' if want_mark else
+                        'a client that is not downgrading is refused'), key='%s %x %x %x' % (R, V, m, M))
+
+
 def run(tier):
     chk = report.Check('C03', tier,
                        'Static necessary conditions: in both handshake interpreters every store that sets bit 0 of application_data is preceded, on '
@@ -486,6 +569,7 @@ def run(tier):
     key_usage_rules(chk)
     resumption_rules(chk)
     session_invalidation(chk)
+    fallback_scsv(chk)
     from . import c11 as _c11
     oblig.run_obligations(chk, [o for o in _c11.obligations() if 'ecdsa' in o.func])
     _c11.rs_nonzero(chk)
